@@ -17,6 +17,10 @@ Oracles    : implementation only, judged by an independent reader (json / fastav
                spelling type SPELLINGS ({"type": t}, +doc, nested, upper case, [t], {}) in the table schema or in the
                         argument x the values plain pyarrow silently alters, fresh and reused handles
                prebuilt pre-built parquet files with divergent footers / other formats through append_files
+               tx       EXPLICIT transactions that outlive a rejected call (harness/lib/c11_tx.py): begin / several
+                        append_data and MULTI-FILE append_files calls, the refused file at every position, the caller
+                        catching the exception / commit, failing commit, rollback or abandoned handle; a rejected call
+                        must contribute nothing to what the commit of that same transaction publishes
 Tie        : correspondence of every hand-written model piece with the code:
                accept   _validate_schema_against_table      vs Model/Schema.v accept_schema
                arrow    create_arrow_schema (fresh manager) vs arrow_of
@@ -24,6 +28,8 @@ Tie        : correspondence of every hand-written model piece with the code:
                conv     pyarrow conversion of admitted values vs canon  (hypothesis conv_sound of C11_exact_partial)
                machine  the e2e histories                   vs the append machine `run` (outcomes, snapshots,
                         footers, bound ids and values, store listing, scan results)
+               transactions  the tx histories               vs Model/SchemaTx.v run_calls / end_tx (call tags, snapshots,
+                        library-written files on storage, every current file, scan_ok)
 Findings   : (findings/C11-unchanged-tree.log, findings/C11-prebuilt-format-unchanged-tree.log, findings/C11-replays/)
                F-C11   unordered, id-less schema signature: reordered -> scans raise; renumbered -> rows mis-filtered   (fixed)
                F-C11b  pyarrow silently alters values validate_records_strict let through (1.5 -> 1, int -> timestamp,
@@ -53,8 +59,9 @@ from harness.lib.values import val_to_coq
 
 LEVEL = "proof"
 THEOREMS = ["C11_accept_scans", "C11_history_scans", "C11_accept_bounds", "C11_history_filter", "C11_history_bounds_exact",
-            "C11_history_bounds_true", "C11_reject_no_trace", "C11_exact_partial", "C11_fits_representable"]
-REQ = ["DS.Model.Value", "DS.Gen.GenPrune", "DS.Model.Prune", "DS.Gen.GenSchema", "DS.Model.Schema", "DS.Model.SchemaEval"]
+            "C11_history_bounds_true", "C11_reject_no_trace", "C11_exact_partial", "C11_fits_representable",
+            "C11_tx_rejected_call_no_trace", "C11_tx_publishes_accepted_only", "C11_tx_unpublished_no_trace", "C11_tx_history_scans"]
+REQ = ["DS.Model.Value", "DS.Gen.GenPrune", "DS.Model.Prune", "DS.Gen.GenSchema", "DS.Model.Schema", "DS.Model.SchemaTx", "DS.Model.SchemaEval"]
 
 MANIFEST_ENTRY = {
     "level_text": "Coq proofs over Model/Schema.v + regenerated Gen/GenSchema.v, for every table schema with unique names "
@@ -64,7 +71,9 @@ MANIFEST_ENTRY = {
                   "of every snapshot carries the table's Arrow schema so full scans never raise, and pruned filtered scans "
                   "equal unpruned ones (C11_history_scans, C11_history_filter, composing C13); every stored bound is exactly the "
                   "minimum / maximum of its column, under the table's field id, and encloses every ordinary value "
-                  "(C11_history_bounds_exact, C11_history_bounds_true); a rejected append leaves "
+                  "(C11_history_bounds_exact, C11_history_bounds_true); in explicit transactions a call that raises adds "
+                  "nothing to the queue, a successful commit publishes exactly the files of the accepted calls, any "
+                  "other end publishes nothing, and scans keep working (C11_tx_*); a rejected append leaves "
                   "schema, snapshot list, reachable files and stored data files unchanged (C11_reject_no_trace); accepted "
                   "rows are stored as canon(type, value) with every value representable (C11_exact_partial, under "
                   "conv_sound). Model pieces tied to the code by differential execution; implementation-only end-to-end "
@@ -568,6 +577,12 @@ def _judge_rows(supplied: List[Tuple[Dict[str, str], Dict[str, Any]]], got: List
     return None
 
 
+def run_tx_case(case: Dict[str, Any], root: str, filters_per_col: int = 1) -> Dict[str, Any]:
+    """Explicit-transaction histories (harness/lib/c11_tx.py); here so that the worker process can be asked for it."""
+    from harness.lib.c11_tx import run_tx_case as impl
+    return impl(case, root, filters_per_col)
+
+
 # ---------------------------------------------------------------------------------- bounded execution
 _WORKER = None
 CASE_TIMEOUT = float(os.environ.get("C11_CASE_TIMEOUT", "20"))
@@ -580,8 +595,9 @@ def bounded_case(case: Dict[str, Any], root: str, filters_per_col: int = 2, time
     exhausts memory or kills the process yields a VIOLATION for this case instead of a stuck check."""
     global _WORKER
     from harness.lib.c11_worker import Worker
+    fn = "run_tx_case" if case.get("kind") == "tx" else "run_case"
     if os.environ.get("C11_INPROCESS"):
-        return run_case(case, root, filters_per_col)
+        return globals()[fn](case, root, filters_per_col)
     if worker is None:
         if _WORKER is None:
             _WORKER = Worker()
@@ -592,7 +608,7 @@ def bounded_case(case: Dict[str, Any], root: str, filters_per_col: int = 2, time
         _BOUNDED["skipped"] += 1
         return {"violations": [], "trace": [], "bounded": "skipped"}
     limit = timeout or (CASE_TIMEOUT if _BOUNDED["bad"] < 2 else 5.0)
-    status, res = worker.call("run_case", (case, root, filters_per_col), limit)
+    status, res = worker.call(fn, (case, root, filters_per_col), limit)
     if status == "ok":
         return res
     _BOUNDED["bad"] += 1
@@ -724,6 +740,55 @@ def oracle_e2e(ctx) -> List[Tuple[Dict[str, Any], Dict[str, Any]]]:
         if ci == 0:
             ctx.sample({"e2e_case": case_json(case), "outcomes": [e["outcome"] for e in res["trace"]]})
     ctx.stats["e2e"] = stats
+    return runs
+
+
+def oracle_tx(ctx) -> List[Tuple[Dict[str, Any], Dict[str, Any]]]:
+    """Explicit transactions that outlive a rejected call: directed multi-file appends whose refused file is at
+    every position, then random transaction histories (records and files calls, commit / rollback / abandon /
+    failing commit, reused and fresh handles)."""
+    from harness.lib.c11_tx import FILE_KINDS_BAD, gen_file, gen_tx_case, shrink_tx, tx_case_json
+    rng = ctx.rng
+    cases: List[Dict[str, Any]] = []
+    kinds = FILE_KINDS_BAD
+    for kind in kinds:
+        for pos in (0, 1, 2):
+            for follow in ((False, True) if ctx.tier == "thorough" or pos == 2 else (False,)):
+                fields = mk_fields(rng, 2)
+                files = [gen_file(rng, fields, "good") for _ in range(3)]
+                files[pos]["kind"] = kind
+                calls: List[Dict[str, Any]] = [{"op": "files", "files": files}]
+                if follow:
+                    calls.append({"op": "records", "variant": "omitted", "arg": None, "sid": 1, "records": gen_records(rng, fields, 0.0)})
+                cases.append({"kind": "tx", "fields": fields, "seed": rng.getrandbits(30),
+                              "txs": [{"handle": rng.choice(["A", "fresh"]), "calls": calls, "end": "commit"}]})
+    for _ in range(40 if ctx.tier == "quick" else 1200):
+        cases.append(gen_tx_case(rng, rng.choice([1, 2, 3])))
+    results = bounded_many(ctx.scratch, [(c, 1) for c in cases])
+    stats = {"cases": len(cases), "transactions": 0, "calls_accepted": 0, "calls_rejected": 0, "commits_ok": 0, "ends": {}}
+    reported = set()
+    runs = []
+    for case, res in zip(cases, results):
+        runs.append((case, res))
+        for tev in res["trace"]:
+            stats["transactions"] += 1
+            stats["ends"][tev["commit"]] = stats["ends"].get(tev["commit"], 0) + 1
+            stats["commits_ok"] += tev["commit"] == "ok"
+            for c in tev["calls"]:
+                stats["calls_" + c["outcome"]] += 1
+            ctx.count(1 + len(tev["calls"]) + tev.get("filters", 0), ("tx", id(case), tev["tx"]))
+        for key, what in res["violations"]:
+            if key in reported:
+                continue
+            reported.add(key)
+            slow = key.split(":")[0] in ("hang", "crash", "error")
+            small = case if slow else shrink_tx(case, lambda c: any(k == key for k, _ in bounded_case(c, os.path.join(ctx.scratch, "shrinktx"), 1)["violations"]))
+            again = bounded_case(small, os.path.join(ctx.scratch, "shrinktx"), 1)
+            what2 = next((w for k, w in again["violations"] if k == key), what)
+            ctx.violation(key, what2, {"kind": "tx-history", "case": tx_case_json(small)})
+    ctx.stats["tx"] = stats
+    if cases:
+        ctx.sample({"tx_case": tx_case_json(cases[-1])})
     return runs
 
 
@@ -1274,6 +1339,103 @@ def corr_machine(ctx, runs: List[Tuple[Dict[str, Any], Dict[str, Any]]]) -> None
     ctx.stats["machine_cases_not_modelled"] = skipped
 
 
+def corr_tx(ctx, runs: List[Tuple[Dict[str, Any], Dict[str, Any]]]) -> None:
+    """The transaction histories through Model/SchemaTx.v (run_calls / end_tx), pyarrow's observed conversions
+    as the oracle: per transaction the tags of its calls, snapshot count, library-written files on storage,
+    every file of the current snapshot (footer, rows, bounds) and scan_ok."""
+    tags = arrow_tags()
+    by_arrow = {}
+    for t in TYPES:
+        by_arrow.setdefault(str(real_arrow_type(t)), f"arrow_of_type T_{t}")
+    exprs, kept, impl = [], [], []
+    for case, res in runs:
+        if not res["trace"]:
+            continue
+        txs = case["txs"][:len(res["trace"])]
+        ptypes = {resolved_type(f["type"]) for f in case["fields"]}
+        values: List[Any] = [None]
+        for tx in txs:
+            for c in tx["calls"]:
+                if c["op"] != "records":
+                    continue
+                for f in (c["arg"] or []):
+                    ptypes.add(resolved_type(f["type"]))
+                for r in c["records"]:
+                    for v in r.values():
+                        if not any(same_cell(v, w) and type(v) is type(w) for w in values):
+                            values.append(v)
+        tab = [f"(arrow_of_type T_{t}, {pyval_to_coq(v)}, {opt_pyval_coq(real_conv(t, v))})" for t in sorted(ptypes) for v in values]
+        conv = "(conv_tab [" + "; ".join(tab) + "])"
+        fresh_id, pid = 10, 1000
+        evs, obs = [], []
+        ok = True
+        for tx, tev in zip(txs, res["trace"]):
+            if tx["handle"] == "fresh":
+                h = fresh_id
+                fresh_id += 1
+            else:
+                h = {"A": 0, "B": 1}[tx["handle"]]
+            calls, ctags = [], []
+            for c, cev in zip(tx["calls"], tev["calls"]):
+                if c["op"] == "records":
+                    arg = f"(Some {ischema_coq(c['sid'], c['arg'])})" if c["arg"] is not None else "None"
+                    calls.append(f"CRecords {arg} [" + "; ".join(record_coq(r) for r in c["records"]) + "]")
+                    ctags.append(classify(cev))
+                else:
+                    pfs = []
+                    for spec, fo in zip(c["files"], cev.get("files", [])):
+                        pid += 1
+                        if fo["footer"] is None:
+                            foot = "None"
+                        else:
+                            try:
+                                foot = "(Some [" + "; ".join(f"({NAME_NUM[n]}%Z, {by_arrow[ty]}, {b2c(nl)})" for n, ty, nl in fo["footer"]) + "])"
+                            except KeyError:
+                                ok = False
+                                foot = "None"
+                        rows = "[" + "; ".join("[" + "; ".join(f"({NAME_NUM[k]}%Z, {pyval_to_coq(v)})" for k, v in r.items()) + "]" for r in fo["rows"]) + "]"
+                        k = spec["kind"]
+                        pfs.append(f"{{| pf_id := {pid}%Z; pf_canonical := {b2c(k != 'noncanonical')}; pf_exists := {b2c(k != 'missing')}; "
+                                   f"pf_parquet := {b2c(k not in ('avro', 'orc_declared'))}; pf_footer := {foot}; pf_rows := {rows} |}}")
+                    if len(pfs) != len(c["files"]):
+                        ok = False
+                    calls.append("CFiles [" + "; ".join(pfs) + "]")
+                    ctags.append(0 if cev["outcome"] == "accepted" else 6)
+            end = {"commit": "EndCommit true", "commit_fails": "EndCommit false", "rollback": "EndRollback", "abandon": "EndAbandon"}[tx["end"]]
+            real_files = []
+            for f in tev["files"]:
+                try:
+                    footer = "[" + "; ".join(f"({NAME_NUM[n]}%Z, {tags[ty]}%Z, {b2c(nl)})" for n, ty, nl in f["schema"]) + "]"
+                except KeyError:
+                    ok = False
+                    footer = "[]"
+                rows = "[" + "; ".join("[" + "; ".join(f"({NAME_NUM[k]}%Z, {pyval_to_coq(v)})" for k, v in r.items()) + "]" for r in f["rows"]) + "]"
+                lo = "[" + "; ".join(f"(({int(k)})%Z, {val_to_coq(_decode_bound_indep(v))})" for k, v in (f["lo"] or {}).items()) + "]"
+                hi = "[" + "; ".join(f"(({int(k)})%Z, {val_to_coq(_decode_bound_indep(v))})" for k, v in (f["hi"] or {}).items()) + "]"
+                real_files.append(f"({footer}, {rows}, {lo}, {hi})")
+            evs.append(f"({{| t_handle := {h}%Z; t_calls := [{'; '.join(calls)}]; t_end := {end} |}}, [{'; '.join(real_files)}])")
+            obs.append((ctags, tev["nsnaps"], tev["store"], len(tev["files"]), True, tev["scan"] != "raises"))
+        if not ok:
+            continue
+        exprs.append(f"tx_trace {conv} (init (Some {ischema_coq(1, case['fields'])})) [{'; '.join(evs)}]")
+        kept.append(case)
+        impl.append(obs)
+    got = coqbuild.coq_eval(REQ, exprs, chunk=8)
+    from harness.lib.c11_tx import tx_case_json
+    bad = []
+    ntx = 0
+    for case, i, g in zip(kept, impl, got):
+        g2 = [(list(x[0]),) + tuple(x[1:]) for x in g]
+        ntx += len(i)
+        if g2 != i:
+            k = next((n for n, (a, b) in enumerate(zip(i, g2)) if a != b), None)
+            bad.append({"case": tx_case_json(case), "first_differing_tx": k,
+                        "impl (call tags, snapshots, library files stored, current files, files match, scan ok)": i[k] if k is not None else i,
+                        "model": g2[k] if k is not None else g2})
+    ctx.correspondence("transactions", len(kept), bad)
+    ctx.stats["tx_corr_transactions"] = ntx
+
+
 # ---------------------------------------------------------------------------------- driver
 def run(ctx) -> None:
     ctx.rule = ("e2e: random histories (3-6 append attempts) over 1-3 column schemas of 12 primitive types x 13 schema-argument "
@@ -1296,12 +1458,14 @@ def run(ctx) -> None:
     oracle_spelling(ctx)
     oracle_prebuilt(ctx)
     runs = oracle_e2e(ctx)
+    tx_runs = oracle_tx(ctx)
     guarded(ctx, "legacy-probe", {"kind": "hang", "where": "probe_legacy"}, lambda: probe_legacy(ctx), 60.0)
     # correspondence needs the model to build
     try:
         corr_accept_arrow(ctx)
         corr_records(ctx)
         corr_machine(ctx, runs)
+        corr_tx(ctx, tx_runs)
     except RuntimeError as e:
         ctx.proof_problems.append("model evaluation failed: " + str(e)[:600])
     ctx.stats["bounded_execution"] = {"cases_hung_or_died": _BOUNDED["bad"], "cases_skipped_after_hang_budget": _BOUNDED["skipped"],
@@ -1315,6 +1479,18 @@ def replay(ctx, payload) -> int:
         res = bounded_case(c, os.path.join(ctx.scratch, "replay"))
         for ev in res["trace"]:
             print("  step", ev["step"], ev["variant"], ev["handle"], ev["outcome"], ev.get("error", ""), "scan:", ev["scan"])
+        if res["violations"]:
+            for k, w in res["violations"]:
+                print("replay: STILL FAILS", k, "-", w)
+            return 1
+        print("replay: passes now")
+        return 0
+    if case.get("kind") == "tx-history":
+        from harness.lib.c11_tx import tx_case_unjson
+        res = bounded_case(tx_case_unjson(case["case"]), os.path.join(ctx.scratch, "replay"), 1)
+        for tev in res["trace"]:
+            print("  tx", tev["tx"], tev["handle"], [(c["op"], c["outcome"], c.get("error", "")) for c in tev["calls"]], "->", tev["commit"],
+                  "snapshots:", tev["nsnaps"], "scan:", tev["scan"])
         if res["violations"]:
             for k, w in res["violations"]:
                 print("replay: STILL FAILS", k, "-", w)
